@@ -90,10 +90,14 @@ func runC15(r *core.Run) {
 				}
 				copy(b[t.pubOff+4:], refmodel.BE(uint64(off), 2))
 				r.Evaluations.Add(1)
-				p, e, _, ok := t.eval(b)
+				p, e, expired, ok := t.eval(b)
 				if !ok {
 					bad("parse", t.name, fmt.Sprintf("%s with published=%d expires=%d does not parse", t.name, pub, off))
 					return
+				}
+				// IsExpired against the exact expiry, with a day's margin around the wall clock
+				if x := exactSec(pub, uint16(off)); (x <= int64(now)-86400 && !expired) || (x >= int64(now)+86400 && expired) {
+					bad("is-expired", t.name+".IsExpired", fmt.Sprintf("published=%d + expires=%d = %d (now %d): IsExpired=%v", pub, off, x, now, expired))
 				}
 				if p.Unix() != int64(pub) || p.Nanosecond() != 0 {
 					bad("published-time", t.name+".PublishedTime", fmt.Sprintf("published=%d -> %d", pub, p.Unix()))
@@ -116,6 +120,63 @@ func runC15(r *core.Run) {
 			r.Evaluations.Add(1)
 			if !ok || expired != (d < 0) {
 				bad("is-expired", t.name+".IsExpired", fmt.Sprintf("expiry %+d s from now: IsExpired=%v (parsed=%v)", d, expired, ok))
+			}
+		}
+	}
+	// the same with OFFLINE_KEYS set: the structure's own published+expires still decides "a day in the past";
+	// "a day in the future" is judged when the transient key is valid beyond that as well
+	{
+		offl := func(exp uint32) *refmodel.Offline {
+			tk := gen.Key(7, 1032)
+			return &refmodel.Offline{Expires: exp, TransType: 7, TransKey: tk.Pub, Sig: make([]byte, 64)}
+		}
+		type otgt struct {
+			name string
+			mk   func(pub uint32, off uint16, o *refmodel.Offline) (bool, bool)
+		}
+		otgts := []otgt{
+			{"LeaseSet2", func(pub uint32, off uint16, o *refmodel.Offline) (bool, bool) {
+				x := ls2
+				x.Published, x.Expires, x.Flags, x.Offline = pub, off, 1, o
+				v, _, err := lease_set2.ReadLeaseSet2(x.Bytes())
+				if err != nil {
+					return false, false
+				}
+				return v.IsExpired(), true
+			}},
+			{"MetaLeaseSet", func(pub uint32, off uint16, o *refmodel.Offline) (bool, bool) {
+				x := meta
+				x.Published, x.Expires, x.Flags, x.Offline = pub, off, 1, o
+				v, _, err := meta_leaseset.ReadMetaLeaseSet(x.Bytes())
+				if err != nil {
+					return false, false
+				}
+				return v.IsExpired(), true
+			}},
+			{"EncryptedLeaseSet", func(pub uint32, off uint16, o *refmodel.Offline) (bool, bool) {
+				x := els
+				x.Published, x.Expires, x.Flags, x.Offline = pub, off, 1, o
+				v, _, err := encrypted_leaseset.ReadEncryptedLeaseSet(x.Bytes())
+				if err != nil {
+					return false, false
+				}
+				return v.IsExpired(), true
+			}},
+		}
+		for _, t := range otgts {
+			for _, d := range []int64{-86400, -10 * 86400, 86400, 10 * 86400} {
+				for _, oexp := range []uint32{now + 30*86400, 1<<32 - 1, gen.OfflineExp} {
+					r.Evaluations.Add(1)
+					expired, ok := t.mk(uint32(int64(now)+d-600), 600, offl(oexp))
+					if !ok {
+						r.AddNote("offline_variants_not_parsed_"+t.name, 1)
+						continue
+					}
+					if expired != (d < 0) {
+						bad("is-expired", t.name+".IsExpired[offline-keys]", fmt.Sprintf("OFFLINE_KEYS set, transient key valid until %d: own expiry %+d s from now: IsExpired=%v", oexp, d, expired))
+					}
+					r.Distinct([]byte("offl-exp"), []byte(t.name), refmodel.BE(uint64(d+1<<40), 8), refmodel.BE(uint64(oexp), 4))
+				}
 			}
 		}
 	}
@@ -209,7 +270,7 @@ func runC15(r *core.Run) {
 		r.Distinct([]byte("lease"), refmodel.BE(ms, 8))
 	}
 	// offline signature and meta entry
-	exps := []uint32{1, 1<<31 - 1, 1 << 31, 1<<32 - 1, now - 86400, now + 86400, 0}
+	exps := []uint32{1, 1<<31 - 1, 1 << 31, 1<<32 - 1, now - 86400, now + 86400, 0, now + 1<<31 - 10, now + 1<<31, now + 1<<31 + 10, 4000000000, 1<<32 - 2, now - 1<<30, now + 1<<30}
 	for k := 1; k < 32; k++ {
 		exps = append(exps, 1<<k-1, 1<<k, 1<<k+1)
 	}
@@ -226,19 +287,26 @@ func runC15(r *core.Run) {
 		}
 		// the same field value reached through the parser
 		ob := refmodel.Offline{Expires: exp, TransType: 7, TransKey: kp.Pub, Sig: make([]byte, 64)}
+		var parsedOffline *offline_signature.OfflineSignature
 		if po, _, perr := offline_signature.ReadOfflineSignature(ob.Bytes(), 7); perr != nil {
 			bad("parse", "ReadOfflineSignature", perr.Error())
 		} else {
+			parsedOffline = &po
 			pd, pderr := po.ExpiresDate()
 			if po.Expires() != exp || !po.ExpiresTime().Equal(time.Unix(int64(exp), 0)) || pderr != nil || !bytes.Equal(pd.Bytes(), refmodel.BE(uint64(exp)*1000, 8)) {
 				bad("offline-expiry", "OfflineSignature(parsed).ExpiresTime/ExpiresDate", fmt.Sprintf("expires=%d -> %d / %v", exp, po.ExpiresTime().Unix(), pd))
 			}
 		}
-		if exp == now-86400 && !o.IsExpired() {
-			bad("is-expired", "OfflineSignature.IsExpired", "expired a day ago but not reported expired")
-		}
-		if exp == now+86400 && o.IsExpired() {
-			bad("is-expired", "OfflineSignature.IsExpired", "expires in a day but reported expired")
+		for _, ov := range []*offline_signature.OfflineSignature{&o, parsedOffline} {
+			if ov == nil {
+				continue
+			}
+			if int64(exp) <= int64(now)-86400 && !ov.IsExpired() {
+				bad("is-expired", "OfflineSignature.IsExpired", fmt.Sprintf("expires=%d (a day or more before now=%d) but not reported expired", exp, now))
+			}
+			if int64(exp) >= int64(now)+86400 && ov.IsExpired() {
+				bad("is-expired", "OfflineSignature.IsExpired", fmt.Sprintf("expires=%d (a day or more after now=%d) but reported expired", exp, now))
+			}
 		}
 		m := meta
 		m.Entries = []refmodel.MetaEntry{{Hash: [32]byte{1}, Type: 3, Expires: exp}}
